@@ -89,7 +89,9 @@ func (r *scriptedReader) end() error {
 
 var bulkLens = []int{0, 1, 2, 3, 5, 16, 255, 256, 4095, 4096, 65535, 65536, 65537, 131075, 131071, 131072, 131073, 262143, 262144, 262145, 524287,
 	// lengths at which payload plus terminator (len+2) is a multiple of 64 KiB, and their neighbours
-	65533, 65534, 131070, 196606, 196607, 262142}
+	65533, 65534, 131070, 196606, 196607, 262142,
+	// beyond 1 MiB (where a buffer strategy may change once more)
+	1048575, 1048577, 1500000, 2097153}
 var payloadPool = []string{"\r", "\n", "\r\n", "\x00", "+", "-", ":", "$", "*", "\r\n+OK\r\n", "$-1\r\n", "*0\r\n", ":1\r\n", "abc", "0", "-1"}
 
 // lineLens: lengths of long line-framed values (simple strings, errors) around powers of two and around small
@@ -435,6 +437,9 @@ func runC02(t *testing.T, tape *sim.Tape, tier string) *Outcome {
 		for _, st := range starts {
 			for pw := 1 << 10; pw <= st[1]+2; pw <<= 1 {
 				for d := -20; d <= 4; d++ {
+					if st[1] > 600000 && (pw < 1<<19 || d < -2 || d > 2) {
+						continue // a bulk beyond 512 KiB: only the splits next to its largest power-of-two offsets
+					}
 					c := st[0] + pw + d
 					if c > 0 && c < len(data) {
 						checkW(&scriptedReader{data: data, cuts: []int{c}, piggy: d%2 == 0}, fmt.Sprintf("split@%d (payload offset 2^k%+d)", c, d), 0, false)
@@ -500,7 +505,7 @@ func init() {
 	register(&Check{
 		ID: "C02", Bubble: false, Run: runC02,
 		Runs:   map[string]int{"quick": 6000, "thorough": 200000},
-		Rule:   "a case is one (value sequence, read partition) pair: every 2-way split and the all-1-byte delivery of each generated stream <= 4 KiB plus 4 seeded k-way partitions biased to structural offsets; for streams with bulks of 1 KiB..512 KiB (2^k-1, 2^k, 2^k+1 up to k=19) every split within [-20,+4] bytes of each power-of-two offset of the payload; every split is also delivered through a bufio.Reader (16-byte and default buffer) or a reader that also reports Len() in front of the chunking reader with the returned messages inspected only after the whole stream was parsed (a parsed value must not change when the parser reads on), end of stream arriving alone or together with the last bytes; one line-framed value in sixteen is 255..131070 bytes long (powers of two +-1 and small multiples of 2^k-1); with the reader handed over directly (also typed as a net.Conn) the bytes taken from it when a value is returned are exactly those up to the end of that value; deliveries with 1..3 empty reads (0 bytes, no error) in front of every data read; distinct = distinct (stream, partition) hashes; non-trivial = stream longer than 4 bytes",
+		Rule:   "a case is one (value sequence, read partition) pair: every 2-way split and the all-1-byte delivery of each generated stream <= 4 KiB plus 4 seeded k-way partitions biased to structural offsets; for streams with bulks of 1 KiB..512 KiB (2^k-1, 2^k, 2^k+1 up to k=19, a few beyond 1 MiB) every split within [-20,+4] bytes of each power-of-two offset of the payload; every split is also delivered through a bufio.Reader (16-byte and default buffer) or a reader that also reports Len() in front of the chunking reader with the returned messages inspected only after the whole stream was parsed (a parsed value must not change when the parser reads on), end of stream arriving alone or together with the last bytes; one line-framed value in sixteen is 255..131070 bytes long (powers of two +-1 and small multiples of 2^k-1); with the reader handed over directly (also typed as a net.Conn) the bytes taken from it when a value is returned are exactly those up to the end of that value; deliveries with 1..3 empty reads (0 bytes, no error) in front of every data read; distinct = distinct (stream, partition) hashes; non-trivial = stream longer than 4 bytes",
 		Real:   []string{"redis/proto parser (NewParserWithReader, Next)"},
 		Stub:   []string{"transport: scripted io.Reader deciding read sizes and end-of-stream style"},
 		Assume: []string{"readers never return (0, nil)"},
